@@ -342,7 +342,7 @@ func leakedTestFiles(snapshot map[int]bool) int {
 }
 
 func c19framed(x *mc.X) {
-	scenarios := []string{"cmd-first-use", "cmd-repeat", "reply-first-use", "reply-with-fds", "cmd-with-fds-and-cred", "oversize-then-normal", "badfd-then-normal", "normal-oversize-normal", "reply-oversize-then-normal"}
+	scenarios := []string{"cmd-first-use", "cmd-repeat", "reply-first-use", "reply-with-fds", "cmd-with-fds-and-cred", "oversize-then-normal", "badfd-then-normal", "normal-oversize-normal", "reply-oversize-then-normal", "undecodable-packet-then-normal"}
 	sc := scenarios[x.Choose(len(scenarios), "scenario")]
 	sizes := []int{1, 1000, 31 << 10, 32<<10 - 200, 33 << 10, 40 << 10}
 	size := sizes[x.Choose(len(sizes), "payload")]
@@ -508,6 +508,29 @@ func c19framed(x *mc.X) {
 			break
 		}
 		expectCmd(4, argv, 2, "the message after the failed one")
+	case "undecodable-packet-then-normal":
+		// a packet that is no message of the framed layer reaches the receiver (its decoding fails with bytes left over);
+		// the failing receive must not cost the next, good message anything
+		if err := a.SendMsg([]byte{1, 0, 3, 4, 5, 6}, unixsocket.Msg{}); err != nil {
+			x.Failf("C19/harness", "raw send: %v", err)
+			break
+		}
+		if _, _, _, m, err := sb.RecvCmd(); err == nil {
+			x.Note("undecodable-packet", "was decoded as a command")
+			for _, fd := range m.Fds {
+				unix.Close(fd)
+			}
+		}
+		argv := []string{"after-the-undecodable-one", big}
+		err := sa.SendCmd(4, argv, nil, unixsocket.Msg{Fds: fds2})
+		if err != nil {
+			outcome += "s"
+			if fits {
+				x.Failf("C19/framed/later-message-affected/"+sc, "after an undecodable packet was received, a %d byte message is refused: %v", size, err)
+			}
+			break
+		}
+		expectCmd(4, argv, 2, "the message after the undecodable packet")
 	case "reply-oversize-then-normal":
 		err := sb.SendReply(strings.Repeat("e", 40<<10), nil, nil, unixsocket.Msg{})
 		if err == nil {
